@@ -4,7 +4,8 @@ Every history is emitted three times: as `hist` (model <-> code correspondence o
 per-location lifecycle projection of the real event log), as `rawhist` (the same with the complete event
 list in program order, temporaries named canonically: also the ORDER of the events across locations must
 agree) and as `mon` (the property: verdict of the run-time monitor on the real log against `wf 1 alive 0`
-+ self-operation identities).  Prefixes o / a: the variant-like and the pair/tuple families."""
++ self-operation identities).  Prefixes o / a: the variant-like and the pair/tuple families.
+`pcopy` / `pown`: one copy/move construction or assignment with an element type that has no observable destructor."""
 import itertools
 
 ID = "C03"
@@ -17,14 +18,19 @@ HARNESSES = [
 ]
 RULE = ("a case = a whole operation history on two objects of one family, from their construction to both destructors, run three "
         "times: lifecycle projection (hist), complete event order (rawhist), monitor verdict (mon). Families: static_vector / "
-        "inplace_vector / stack / static_set / flat_set (capacities 1,2,3,4,16), variant<T0,int,T2> / optional<T> / expected<T,E> / "
-        "inplace_function<int(int*),16>, pair<T0,T1> / tuple<T0,T1,T2>, each over a copy+move, move-only or copy-only instrumented "
-        "element. Exhaustive part: vectors - every size state (n0 <= cap, n1 in {0,min(cap,2)}) at cap <= 3 x every single "
-        "operation with every position/count argument in [0, size+1] / [0, room+1], pairs of lifetime-heavy operations at cap 3, "
-        "depth-3 inplace_vector histories (sampled in quick); sets - every single operation with keys below/equal/between/above "
-        "the present ones from every size state; variant-like - every single operation from every pair of index states (all "
-        "from/to combinations), sampled pairs; pair/tuple - every pair of operations. Random part: seeded capacity-aware histories "
-        "of length <= 40 biased to full/empty; ~10% of the vector histories end in a precondition violation; "
+        "inplace_vector (capacities 0,1,2,3,4,16) / stack / static_set / flat_set (1,2,3,4,16), variant<T0,int,T2> / optional<T> / "
+        "expected<T,E> / inplace_function<int(int*),16>, pair<T0,T1> / tuple<T0,T1,T2> / T[3], each over a copy+move, move-only or "
+        "copy-only instrumented element (variant family: also copy-only with a defaulted assignment). Exhaustive part: vectors - every "
+        "size state (n0 <= cap, n1 in {0,min(cap,2)}) at cap <= 3 x every single operation with every position/count argument in "
+        "[0, size+1] / [0, room+1] (range members with pointer AND forward-iterator sources, construction from T[n]), pairs of "
+        "lifetime-heavy operations at cap 3, depth-3 inplace_vector histories (sampled in quick); sets - every single operation with "
+        "keys below/equal/between/above the present ones from every size state; variant-like - every single operation from every pair "
+        "of index states (all from/to combinations), sampled pairs; pair/tuple - every pair of operations. Random part: seeded "
+        "capacity-aware histories of length <= 40 biased to full/empty; ~10% of the vector histories end in a precondition violation "
+        "(after which only the legality of the prefix is compared). pcopy / pown: element type with trivial default constructor, "
+        "destructor and copy assignment but a user-provided copy constructor - every (capacity 1-4, source size, target size) resp. "
+        "every from/to index pair x copy/move construction/assignment: which copy constructor ran on which storage from which source; "
+        "uhist / umon: uninitialized_copy / _move / _fill of 0..6 elements whose constructor throws at every position (or never); "
         "non-trivial = distinct history whose log contains at least one move/copy between two locations")
 TRUSTED_BASE = ["reference leg: the constant verdict `wf 1 alive 0 [st 1] self 1...`; its domain (validity of the history) is decided by "
                 "replaying the history on libstdc++ std::vector<int> (sets: sorted std::vector) with the documented preconditions; "
@@ -510,12 +516,25 @@ def gen_pcopy():
                 for m in range(0, cap + 1):
                     for what in ("cc", "mc", "ca", "ma"):
                         out.append(f"pcopy {kind} {cap} {n} {m} {what}")
+    # the same element flavour as alternative of variant<P0, int, P2> / optional<P1> / expected<P0, P1>: every from/to index pair
+    for kind, n_alt in (("var", 3), ("opt", 2), ("exp", 2)):
+        for i0 in range(n_alt):
+            for i1 in range(n_alt):
+                for what in ("cc", "mc", "ca", "ma"):
+                    out.append(f"pown {kind} {i0} {i1} {what}")
+    # uninitialized_copy / _move / _fill with an element constructor that throws during its (k+1)-th call (k = -1: never)
+    for what in ("copy", "move", "fill"):
+        for n in range(0, 7):
+            for k in range(-1, n + 2):
+                out += [f"uhist {what} {n} {k}", f"umon {what} {n} {k}"]
     return out
 
 
 def nontrivial(case, impl):
-    if case.startswith("pcopy"):
+    if case.startswith("pcopy") or case.startswith("pown"):
         return "C:" in impl
+    if case.startswith("uhist") or case.startswith("umon"):
+        return "Cc" in impl or "Cm" in impl or "thrown 1" in impl
     if case.split(" ", 1)[0] in ("hist", "ohist", "ahist", "rawhist", "orawhist", "arawhist"):
         return ("Cm" in impl) or ("Cc" in impl) or ("Am" in impl) or ("Ac" in impl)
     return "self 1" in impl or "alive 0" in impl
